@@ -144,6 +144,7 @@ const (
 	tConst // const array
 	tRealLit
 	tUF // uninterpreted function application: Op = function name
+	tQuant // forall: Name = bound symbol name, Args[0] = body, Args[1] = the bound Sym
 )
 
 var (
@@ -199,6 +200,51 @@ func UF(name string, res *Sort, args ...*Term) *Term {
 		}
 	}
 	return intern(&Term{kind: tUF, Op: name, Args: args, Sort: res})
+}
+
+var boundCounter int
+
+// Forall builds (forall ((v S)) body) where v is a Sym created by NewBound.
+func NewBound(name string, s *Sort) *Term {
+	boundCounter++
+	return Sym(fmt.Sprintf("bv!%s!%d", name, boundCounter), s)
+}
+
+func Forall(v *Term, body *Term) *Term {
+	if body.IsTrue() {
+		return True
+	}
+	return intern(&Term{kind: tQuant, Op: "forall", Name: v.Name, Args: []*Term{body, v}, Sort: SBool})
+}
+
+// substitute replaces symbol `from` by `to` in t.
+func substitute(t *Term, from, to *Term, memo map[*Term]*Term) *Term {
+	if t == from {
+		return to
+	}
+	if len(t.Args) == 0 {
+		return t
+	}
+	if r, ok := memo[t]; ok {
+		return r
+	}
+	changed := false
+	args := make([]*Term, len(t.Args))
+	for i, a := range t.Args {
+		args[i] = substitute(a, from, to, memo)
+		if args[i] != a {
+			changed = true
+		}
+	}
+	r := t
+	if changed {
+		n := *t
+		n.Args = args
+		n.id = 0
+		r = intern(&n)
+	}
+	memo[t] = r
+	return r
 }
 
 func Not(a *Term) *Term {
@@ -603,6 +649,10 @@ func printTerm(sb *strings.Builder, t *Term, names map[*Term]string) {
 		sb.WriteString("((as const " + t.Sort.String() + ") ")
 		printTerm(sb, t.Args[0], names)
 		sb.WriteString(")")
+	case tQuant:
+		sb.WriteString("(forall ((" + smtIdent(t.Name) + " " + t.Args[1].Sort.String() + ")) ")
+		printTerm(sb, t.Args[0], names)
+		sb.WriteString(")")
 	case tUF:
 		if len(t.Args) == 0 {
 			sb.WriteString(smtIdent(t.Op))
@@ -700,10 +750,34 @@ func (sc *Script) Render(logic string, produceModels bool) string {
 	var dorder []*Sort
 	syms := map[string]*Term{}
 	ufs := map[string]*ufDecl{}
+	bound := map[string]bool{}
+	for _, t := range order {
+		if t.kind == tQuant {
+			bound[t.Name] = true
+		}
+	}
+	hasBound := map[*Term]bool{}
+	if len(bound) > 0 {
+		for _, t := range order { // post-order: children first
+			if t.kind == tSym && bound[t.Name] {
+				hasBound[t] = true
+				continue
+			}
+			for _, a := range t.Args {
+				if hasBound[a] {
+					hasBound[t] = true
+					break
+				}
+			}
+		}
+	}
 	for _, t := range order {
 		sortDeps(t.Sort, seenU, seenD, &dorder)
 		switch t.kind {
 		case tSym:
+			if bound[t.Name] {
+				continue
+			}
 			if o, ok := syms[t.Name]; ok && o.Sort != t.Sort {
 				panic("symbol " + t.Name + " declared with two sorts: " + o.Sort.String() + " / " + t.Sort.String())
 			}
@@ -768,7 +842,7 @@ func (sc *Script) Render(logic string, produceModels bool) string {
 	names := map[*Term]string{}
 	k := 0
 	for _, t := range order {
-		if seen[t] > 1 && len(t.Args) > 0 {
+		if seen[t] > 1 && len(t.Args) > 0 && !hasBound[t] {
 			var b strings.Builder
 			printTerm(&b, t, names)
 			n := fmt.Sprintf("$t%d", k)
